@@ -1,1 +1,3 @@
 pub mod arr;
+pub mod cost;
+pub mod uni;
